@@ -209,6 +209,14 @@ func (c *c09Runner) judgeReal(cs *C09Case, dir string, run int64) (*c09Obs, bool
 		}
 	}
 	sres, err := c.race.Exec(seq)
+	if libsim.IsWatchdog(err) {
+		// the -race worker has no step budget: an evaluation that passed the
+		// pre-screen under four schedules and still runs away under the
+		// runtime's own order is abandoned (resource exhaustion is C08's
+		// subject) and counted
+		c.e.Ev.Count("race_batches_abandoned_after_watchdog", 1)
+		return nil, true, nil
+	}
 	if err != nil {
 		return nil, false, err
 	}
@@ -217,6 +225,10 @@ func (c *c09Runner) judgeReal(cs *C09Case, dir string, run int64) (*c09Obs, bool
 		return nil, true, nil
 	}
 	pres, err := c.race.Exec(par)
+	if libsim.IsWatchdog(err) {
+		c.e.Ev.Count("race_batches_abandoned_after_watchdog", 1)
+		return nil, true, nil
+	}
 	if err != nil {
 		return nil, false, err
 	}
@@ -502,6 +514,7 @@ func RunC09(e *Env) (int, error) {
 		raceWorkers = 1
 	}
 	c.race = libsim.NewPool(e.Tree.Worker("race"), raceWorkers, 0, "GORACE=halt_on_error=1 exitcode=66")
+	c.race.Watchdog = 60 * time.Second
 	defer c.race.Close()
 	c.stock = libsim.NewPool(e.Tree.Worker("stock"), 2, 0)
 	defer c.stock.Close()
@@ -647,13 +660,23 @@ func RunC09(e *Env) (int, error) {
 			// keep only evaluations that terminate within the step budget
 			// (the -race worker has no step counter; runaway evaluations
 			// are C08's subject and would only cost a worker restart here)
-			pre, _, err := c.solo(&cs, wire.Sched{Mode: "Asc"}, "/", run)
-			if err != nil {
-				return harness.RunResult{Err: err}
+			// (whether an evaluation runs away can itself depend on the order:
+			// the pre-screen uses four different schedules)
+			runaway := make([]bool, len(cs.Tasks))
+			for _, sc := range []wire.Sched{{Mode: "Asc"}, {Mode: "Desc"}, {Mode: "Hash", Seed: uint64(run)*2 + 1, Coin: 1}, {Mode: "Hash", Seed: uint64(run)*2 + 2, Coin: 0}} {
+				pre, _, err := c.solo(&cs, sc, "/", run)
+				if err != nil {
+					return harness.RunResult{Err: err}
+				}
+				for t := range cs.Tasks {
+					if _, res := evalSig(cs.Tasks[t], pre[t]); res {
+						runaway[t] = true
+					}
+				}
 			}
 			var keep [][]wire.Op
 			for t := range cs.Tasks {
-				if _, res := evalSig(cs.Tasks[t], pre[t]); !res {
+				if !runaway[t] {
 					keep = append(keep, cs.Tasks[t])
 				}
 			}
